@@ -139,7 +139,7 @@ Color = Union[
 
 class PDFGraphicState:
     def __init__(self) -> None:
-        self.linewidth: float = 0
+        self.linewidth: float = 1  # initial value, ISO 32000-1 table 52
         self.linecap: Optional[object] = None
         self.linejoin: Optional[object] = None
         self.miterlimit: Optional[object] = None
